@@ -556,8 +556,8 @@ Definition put_device (doc : entry) (d : device) : device * option error :=
   end.
 
 (* ---------------------------------------------------------------------------------------------------------- *)
-(* GET/PUT /devices (slaves).  Entries are restored as they are when `enabled` is false; an enabled entry needs the device
-   on the network and is outside this model. *)
+(* GET/PUT /devices (slaves).  Entries are restored as they are when `enabled` is false; an enabled entry is fetched from the
+   device ([reach], below). *)
 
 Record slaves := {
   sl_devices : list entry;           (* to_json of every slave, insertion order *)
@@ -607,17 +607,76 @@ Definition slave_json (e : entry) : entry :=
    ("provisioning", match lookup "provisioning" e with Some (JList l) => JList l | _ => JList [] end);
    ("attrs", match lookup "attrs" e with Some (JObj o) => JObj o | _ => JObj [] end)].
 
+(* ---- enabled entries: slaves.devices.add() fetches GET /device from the device.  [reach e] = what the device at the entry's
+   endpoint answers (its attributes, with `flags`), None when it cannot be reached. *)
+
+Definition has_listen_flag (attrs : jv) : bool :=
+  match attrs with
+  | JObj o => match get "flags" o with
+              | JList l => existsb (fun x => match x with JStr f => String.eqb f "listen" | _ => false end) l
+              | _ => false
+              end
+  | _ => false
+  end.
+
+Definition listen_true (e : entry) : bool := match get "listen_enabled" e with JBool true => true | _ => false end.
+
+(* `enabled` defaults to true (add(..., enabled=True)) *)
+Definition entry_enabled (e : entry) : bool := match lookup "enabled" e with Some v => truthy v | None => true end.
+
+(* the device's attributes when the entry ends up as an ENABLED device: it is enabled, reachable, and listening is not asked of a
+   device without the `listen` flag (NoListenSupport).  In the other cases of an enabled entry add_slave_device_retry_disabled adds
+   it again as a disabled device. *)
+Definition slave_live (reach : entry -> option jv) (e : entry) : option jv :=
+  if entry_enabled e then
+    match reach e with
+    | Some a => if listen_true e && negb (has_listen_flag a) then None else Some a
+    | None => None
+    end
+  else None.
+
+Definition default_poll_interval : Z := 40.            (* _DEFAULT_POLL_INTERVAL = 10 s, in quarters *)
+
+(* to_json of a device added enabled.  The sync method is detected ONLY when it is unspecified: listen_enabled absent/null and
+   poll_interval 0; explicit values - also "neither" (false, 0): a permanently offline device - are kept. *)
+Definition live_json (e : entry) (a : jv) : entry :=
+  let le := get "listen_enabled" e in
+  let pi := match lookup "poll_interval" e with Some v => v | None => JNum 0 end in
+  let unspecified := is_null le && match pi with JNum 0 => true | _ => false end in
+  let le' := if unspecified && has_listen_flag a then JBool true else le in
+  let pi' := if unspecified && negb (has_listen_flag a) then JNum default_poll_interval else pi in
+  [("enabled", JBool true); ("name", get "name" e); ("scheme", get "scheme" e); ("host", get "host" e);
+   ("port", get "port" e); ("path", get "path" e); ("admin_password_hash", get "admin_password_hash" e);
+   ("poll_interval", pi'); ("listen_enabled", le');
+   ("last_sync", match lookup "last_sync" e with Some v => v | None => JNum (-4) end);     (* stamped by the fetch: volatile *)
+   ("online", JBool false);
+   ("provisioning", match lookup "provisioning" e with Some (JList l) => JList l | _ => JList [] end);
+   ("attrs", a)].
+
+Definition slave_result (reach : entry -> option jv) (e : entry) : entry :=
+  match slave_live reach e with Some a => live_json e a | None => slave_json e end.
+
+(* the device is added disabled (or was disabled in the first place) and listening is asked although the attributes kept in the
+   entry do not have the `listen` flag: NoListenSupport also for a disabled device *)
+Definition slave_no_listen (reach : entry -> option jv) (e : entry) : bool :=
+  match slave_live reach e with
+  | Some _ => false
+  | None => listen_true e && negb (has_listen_flag (get "attrs" e))
+  end.
+
 (* the entries are added by concurrent tasks (asyncio.gather): a failing entry does not stop the others - they run in document
    order, each to completion - and the first failure (in that order) is what the call answers *)
-Fixpoint add_slaves (acc : list entry) (doc : list entry) (i : Z) (err : option (Z * string)) : list entry * option (Z * string) :=
+Fixpoint add_slaves (reach : entry -> option jv) (acc : list entry) (doc : list entry) (i : Z) (err : option (Z * string))
+  : list entry * option (Z * string) :=
   match doc with
   | [] => (acc, err)
   | e :: r =>
-      let fail code := add_slaves acc r (i + 1) (match err with None => Some (i, code) | _ => err end) in
+      let fail code := add_slaves reach acc r (i + 1) (match err with None => Some (i, code) | _ => err end) in
       if existsb (same_endpoint e) acc then fail "duplicate-device"
       else if truthy (get "poll_interval" e) && truthy (get "listen_enabled" e) then fail "listening-and-polling"
       else if is_null (get "admin_password" e) && is_null (get "admin_password_hash" e) then fail "missing-field"
-      else add_slaves (acc ++ [slave_json e]) r (i + 1) err
+      else if slave_no_listen reach e then fail "no-listen-support"
+      else add_slaves reach (acc ++ [slave_result reach e]) r (i + 1) err
   end.
 
 Fixpoint first_invalid_slave (doc : list entry) (i : Z) : option (Z * string * string) :=
@@ -627,14 +686,17 @@ Fixpoint first_invalid_slave (doc : list entry) (i : Z) : option (Z * string * s
   end.
 
 (* error of PUT /devices: (index of the entry, code) *)
-Definition put_slave_devices (doc : list entry) (s : slaves) : slaves * option (Z * string) :=
+Definition put_slave_devices (reach : entry -> option jv) (doc : list entry) (s : slaves) : slaves * option (Z * string) :=
   let s1 := {| sl_devices := []; sl_updating := false; sl_events := false |} in       (* flags off; all devices removed *)
   let '(devs, err) :=
     match first_invalid_slave doc 0 with
     | Some (i, c, _) => ([], Some (i, c))
-    | None => add_slaves [] doc 0 None
+    | None => add_slaves reach [] doc 0 None
     end in
   ({| sl_devices := devs; sl_updating := true; sl_events := true |}, err).             (* finally *)
+
+(* online and last_sync are not configuration (the state of the connection; the time of the last exchange) *)
+Definition strip_slave (e : entry) : entry := remove_key "online" (remove_key "last_sync" e).
 
 (* ---------------------------------------------------------------------------------------------------------- *)
 (* GET/PUT /peripherals *)
